@@ -7,6 +7,12 @@ From GV Require Import Trie.OpsProofs Trie.Canon Trie.Proof Trie.ProofProofs.
 From GV Require Import Trie.Commit Trie.CommitProofs Trie.CommitTracer Trie.CommitReads.
 Local Open Scope N_scope.
 
+(* the opTracer-relevant events: everything except resolutions *)
+Definition nores (ev : list tev) : list tev :=
+  filter (fun e => match e with TRes _ _ => false | _ => true end) ev.
+Lemma nores_app a b : nores (a ++ b) = nores a ++ nores b.
+Proof. apply filter_app. Qed.
+
 Section Sim.
   Variable H : list N -> list N.
   Hypothesis H_len : forall x, length (H x) = 32%nat.
@@ -149,7 +155,7 @@ Section Sim.
       (forall q, In (TIns q) ev -> dirty' q = true) ->
       exists G', rep H R dirty' delp' f p n' G' /\ (d = false -> G' = G) /\
                  (forall fu', (length key < fu')%nat ->
-                    exists ev', insert R fu' G p key (NValue v) = TOk (d, G', ev')).
+                    exists ev', insert R fu' G p key (NValue v) = TOk (d, G', ev') /\ nores ev' = nores ev).
     Proof.
       induction fu as [|fu IH]; intros n p key v d n' ev f G E Rp Wp Dk Di; [discriminate|].
       destruct key as [|k0 kr].
@@ -159,19 +165,19 @@ Section Sim.
         - inversion Rp as [| |? ? ? ? ? SFx| |]; subst; [|discriminate SFx].
           cbn in E. inversion E; subst.
           exists (NValue v). split; [constructor|]. split; [discriminate|].
-          intros [|fu'] L; [lia|]. eexists. reflexivity.
+          intros [|fu'] L; [lia|]. eexists. split; reflexivity.
         - inversion Rp as [| |? ? ? ? ? SFx| |]; subst; [|discriminate SFx].
           cbn in E. inversion E; subst.
           exists (NValue v). split; [constructor|]. split.
           + intro X. apply negb_false_iff in X. apply bytes_eqb_eq in X. congruence.
-          + intros [|fu'] L; [lia|]. eexists. reflexivity. }
+          + intros [|fu'] L; [lia|]. eexists. split; reflexivity. }
       destruct Wp as [[X _]|[Vk Wn]]; [discriminate|].
       inversion Rp as [f0 p0|f0 p0 v0|f0 p0 h G0 e SF W EN Hh HB C U|f0 p0 nk c c' Rc CO|f0 p0 cs cs' HL Rcs CO]; subst.
       - (* nil *)
         cbn in E. inversion E; subst.
         exists (NShort (k0 :: kr) (NValue v)). split.
         + apply rep_short; [constructor|]. apply dirty_clean_ok. apply Di. left. reflexivity.
-        + split; [discriminate|]. intros [|fu'] L; [cbn in L; lia|]. eexists. reflexivity.
+        + split; [discriminate|]. intros [|fu'] L; [cbn in L; lia|]. eexists. split; reflexivity.
       - inversion Wn.
       - (* hash node *)
         destruct (C p G (gsub_here H f p G e SF EN HB)) as (e' & E' & RS).
@@ -182,11 +188,11 @@ Section Sim.
         destruct d1; inversion E; subst.
         + destruct (IH _ _ _ _ _ _ _ _ _ IE RC (or_intror (conj Vk Wn)) Dk) as (G' & X1 & X2 & X3).
           { intros q I. apply Di. right. exact I. }
-          exists G'. auto.
+          exists G'. split; [exact X1|]. split; [exact X2|]. exact X3.
         + destruct (IH _ _ _ _ _ _ _ _ _ IE RC (or_intror (conj Vk Wn))) as (G' & X1 & X2 & X3).
           { discriminate. }
           { intros q I. apply Di. right. exact I. }
-          rewrite (X2 eq_refl) in *. exists G. split; [apply rep_keep; exact RC|]. auto.
+          rewrite (X2 eq_refl) in *. exists G. split; [apply rep_keep; exact RC|]. split; [reflexivity|exact X3].
       - (* short node *)
         set (key := k0 :: kr) in *.
         rewrite (insert_short_unfold R fu nk c p key (NValue v)) in E by discriminate. cbv zeta in E.
@@ -209,11 +215,12 @@ Section Sim.
           { intros q I. apply Di. destruct d1; inversion E; subst; exact I. }
           assert (GR : forall fu', (length key < fu')%nat -> exists ev',
                      insert R fu' (NShort nk c') p key (NValue v) =
-                     (if d1 then TOk (true, NShort nk G1, ev') else TOk (false, NShort nk c', ev'))).
+                     (if d1 then TOk (true, NShort nk G1, ev') else TOk (false, NShort nk c', ev')) /\
+                     nores ev' = nores ev1).
           { intros [|fu''] L; [lia|]. rewrite UNF, Em, Ek, firstn_app_exact, skipn_app_exact.
-            destruct (X3 fu'') as [ev' IE'].
+            destruct (X3 fu'') as (ev' & IE' & NE).
             { rewrite Ek, app_length in L. destruct nk; [congruence|cbn in L; lia]. }
-            rewrite IE'. destruct d1; eauto. }
+            rewrite IE'. exists ev'. split; [destruct d1; reflexivity|exact NE]. }
           destruct d1; inversion E; subst.
           * exists (NShort nk G1). split; [|split; [discriminate|exact GR]].
             apply rep_short; [exact X1|]. apply dirty_clean_ok. apply Dk; [reflexivity|apply ple_app].
@@ -252,24 +259,33 @@ Section Sim.
             destruct keyr; [congruence|].
             destruct (Nat.eqb (length pp) 0); inversion E; subst; apply in_or_app; right; left; reflexivity. }
           assert (AB : a <> b) by exact (fun X => Dab (eq_sym X)).
-          assert (GRD : forall fu', (length key < fu')%nat -> exists ev',
-                     insert R fu' (NShort nk c') p key (NValue v) =
-                     (if Nat.eqb (length pp) 0 then TOk (true, NFull cs2', ev')
-                      else TOk (true, NShort pp (NFull cs2'), ev'))).
-          { intros [|fu''] L; [lia|]. rewrite UNF.
-            rewrite En, Ek, !firstn_app_succ, !skipn_app_succ, firstn_app_exact.
-            destruct (insert_nil (p ++ pp ++ [a]) nkr c') as [c1' ev1'] eqn:I1'.
-            destruct (insert_nil (p ++ pp ++ [b]) keyr (NValue v)) as [c2' ev2'] eqn:I2'.
-            pose proof (insert_nil_fst (p ++ pp ++ [a]) nkr c') as F1'. rewrite I1' in F1'. cbn in F1'. subst c1'.
-            inversion I2; subst.
-            unfold set_child. rewrite SC1', SC2'. destruct (Nat.eqb (length pp) 0); eauto. }
+          assert (EVQ : snd (insert_nil (p ++ pp ++ [a]) nkr c') = snd (insert_nil (p ++ pp ++ [a]) nkr c))
+            by (rewrite !insert_nil_snd; reflexivity).
           destruct (Nat.eqb (length pp) 0) eqn:M0.
-          * apply Nat.eqb_eq in M0. destruct pp; [|discriminate]. rewrite app_nil_r in *. cbn [app] in *.
+          * assert (GRD : forall fu', (length key < fu')%nat -> exists ev',
+                     insert R fu' (NShort nk c') p key (NValue v) = TOk (true, NFull cs2', ev') /\ nores ev' = nores ev).
+            { intros [|fu''] L; [lia|]. rewrite UNF.
+              rewrite En, Ek, !firstn_app_succ, !skipn_app_succ, ?firstn_app_exact.
+              destruct (insert_nil (p ++ pp ++ [a]) nkr c') as [c1' ev1'] eqn:I1'.
+              pose proof (insert_nil_fst (p ++ pp ++ [a]) nkr c') as F1'. rewrite I1' in F1'. cbn in F1'. subst c1'.
+              rewrite I1 in EVQ. cbn in EVQ. subst ev1'.
+              rewrite I2. unfold set_child. rewrite SC1', SC2'. eexists. split; [reflexivity|].
+              inversion E; subst. reflexivity. }
+            apply Nat.eqb_eq in M0. destruct pp; [|discriminate]. rewrite app_nil_r in *. cbn [app] in *.
             inversion E; subst.
             exists (NFull cs2'). split; [|split; [discriminate|exact GRD]].
             apply (rep_branch f p a b _ _ _ _ cs1 cs2 cs1' cs2' AB SC1 SC2 SC1' SC2' Ra Rb).
             apply Dk; [reflexivity|apply ple_app].
-          * inversion E; subst.
+          * assert (GRD : forall fu', (length key < fu')%nat -> exists ev',
+                     insert R fu' (NShort nk c') p key (NValue v) = TOk (true, NShort pp (NFull cs2'), ev') /\ nores ev' = nores ev).
+            { intros [|fu''] L; [lia|]. rewrite UNF.
+              rewrite En, Ek, !firstn_app_succ, !skipn_app_succ, ?firstn_app_exact.
+              destruct (insert_nil (p ++ pp ++ [a]) nkr c') as [c1' ev1'] eqn:I1'.
+              pose proof (insert_nil_fst (p ++ pp ++ [a]) nkr c') as F1'. rewrite I1' in F1'. cbn in F1'. subst c1'.
+              rewrite I1 in EVQ. cbn in EVQ. subst ev1'.
+              rewrite I2. unfold set_child. rewrite SC1', SC2'. eexists. split; [reflexivity|].
+              inversion E; subst. reflexivity. }
+            inversion E; subst.
             exists (NShort pp (NFull cs2')). split; [|split; [discriminate|exact GRD]].
             apply rep_short.
             -- apply (rep_branch false (p ++ pp) a b _ _ _ _ cs1 cs2 cs1' cs2' AB SC1 SC2 SC1' SC2' Ra Rb).
@@ -298,11 +314,11 @@ Section Sim.
                ++ apply Nat.eqb_eq in IK. subst i. inversion E1; inversion E2; subst. rewrite N2Nat.id. exact X1.
                ++ apply rep_keep. apply Rcs; assumption.
             -- apply dirty_clean_ok. apply Dk; [reflexivity|]. apply ple_app.
-          * intros [|fu'] L; [lia|]. destruct (X3 fu') as [ev' IE']; [cbn in L; lia|].
+          * intros [|fu'] L; [lia|]. destruct (X3 fu') as (ev' & IE' & NE); [cbn in L; lia|].
             cbn [insert]. unfold child. rewrite Ec', IE'. unfold set_child. rewrite SN'. eauto.
         + inversion E; subst. rewrite (X2 eq_refl) in *. exists (NFull cs'). split; [apply rep_keep; exact Rp|].
           split; [reflexivity|].
-          intros [|fu'] L; [lia|]. destruct (X3 fu') as [ev' IE']; [cbn in L; lia|].
+          intros [|fu'] L; [lia|]. destruct (X3 fu') as (ev' & IE' & NE); [cbn in L; lia|].
           cbn [insert]. unfold child. rewrite Ec', IE'. eauto.
     Qed.
   End Insert.
@@ -416,11 +432,12 @@ Section SessInsert.
   Theorem sess_insert_rep S ss F key x v ss' :
     sinv H S ss F -> forallb byteb key = true ->
     sess_update H PathScheme S ss key (x :: v) = TOk ss' ->
-    exists F' d,
+    exists F' d ev,
+      s_tr ss' = trace_evs (s_tr ss) ev /\
       rep H (resolve_of H PathScheme S) (dirty_at ss') (delp_of (s_tr ss')) true [] (s_root ss') F' /\
       forall fu', (length (keybytes_to_hex key) < fu')%nat ->
         exists ev', insert (resolve_of H PathScheme S) fu' F [] (keybytes_to_hex key) (NValue (x :: v)) =
-                    TOk (d, F', ev').
+                    TOk (d, F', ev') /\ nores ev' = nores ev.
   Proof.
     intros [GO Rp] BK E. unfold sess_update in E.
     set (k := keybytes_to_hex key) in *.
@@ -452,6 +469,90 @@ Section SessInsert.
     destruct (insert_rep H H_len (resolve_of H PathScheme S) (dirty_at ss) (dirty_at ss')
                 (delp_of (s_tr ss)) (delp_of (s_tr ss')) DM DPM
                 _ _ _ _ _ _ _ _ _ _ IE Rp Wp DK DI) as (F' & X1 & _ & X3).
-    exists F', d. split; [exact X1|exact X3].
+    exists F', d, ev. split; [reflexivity|]. split; [exact X1|exact X3].
   Qed.
 End SessInsert.
+
+(* ------------------------------------------------------------------ *)
+(* Trie.GetNode only loads nodes                                        *)
+(* ------------------------------------------------------------------ *)
+Section SimGetNode.
+  Variable H : list N -> list N.
+  Hypothesis H_len : forall x, length (H x) = 32%nat.
+  Variable sc : scheme.
+  Variable S : store.
+  Variable dirty0 dirty : list N -> bool.
+  Variable delp : list N -> Prop.
+
+  Lemma getnode_rep : forall fu n p rest g n' r ev f G,
+    getnode H fu sc S dirty0 n p rest = (g, n', r, ev) ->
+    rep H (resolve_of H sc S) dirty delp f p n G ->
+    only_res ev /\
+    (is_sf n = true \/ gres_ok g && r = true -> rep H (resolve_of H sc S) dirty delp f p n' G).
+  Proof.
+    induction fu as [|fu IH]; intros n p rest g n' r ev f G E Rp; cbn [getnode] in E.
+    - inversion E; subst. split; [constructor|]. intros _. exact Rp.
+    - inversion Rp as [f0 p0|f0 p0 v0|f0 p0 h G0 e SF W EN Hh HB C U|f0 p0 k c c' Rc CO|f0 p0 cs cs' HL Rcs CO]; subst.
+      + inversion E; subst. split; [constructor|]. intros _. constructor.
+      + destruct rest; inversion E; subst; (split; [constructor|]); intros [X|X]; discriminate.
+      + (* hash node *)
+        destruct rest as [|r0 rr].
+        * repeat (dmatch E; try (inversion E; subst; split; [constructor|intros _; exact Rp])).
+        * destruct (C p G (gsub_here H f p G e SF EN HB)) as (e' & E' & RS).
+          rewrite EN in E'. inversion E'; subst e'. rewrite RS in E.
+          destruct (getnode H fu sc S dirty0 (collapse H G) p (r0 :: rr)) as [[[g1 c1] r1] ev1] eqn:GE.
+          inversion E; subst.
+          destruct (IH _ _ _ _ _ _ _ _ _ GE (rep_collapse H H_len _ dirty delp G W f p C U)) as [O X].
+          split; [constructor; [exact I|exact O]|]. intros _. apply X. left.
+          destruct G; try discriminate; reflexivity.
+      + (* short node *)
+        destruct rest as [|r0 rr].
+        * repeat (dmatch E; try (inversion E; subst; split; [constructor|intros _; exact Rp])).
+        * dmatch E; [inversion E; subst; split; [constructor|intros _; exact Rp]|].
+          destruct (getnode H fu sc S dirty0 c (p ++ k) (skipn (length k) (r0 :: rr))) as [[[g1 c1] r1] ev1] eqn:GE.
+          destruct (IH _ _ _ _ _ _ _ _ _ GE Rc) as [O X].
+          inversion E; subst. split; [exact O|]. intros _.
+          destruct (gres_ok g && r) eqn:OK; [|exact Rp].
+          apply rep_short; [apply X; right; first [exact OK|reflexivity]|exact CO].
+      + (* full node *)
+        destruct rest as [|r0 rr].
+        * repeat (dmatch E; try (inversion E; subst; split; [constructor|intros _; exact Rp])).
+        * unfold child in E. destruct (nth_error cs (N.to_nat r0)) as [c|] eqn:Ec;
+            [|inversion E; subst; split; [constructor|intros _; exact Rp]].
+          destruct (getnode H fu sc S dirty0 c (p ++ [r0]) rr) as [[[g1 c1] r1] ev1] eqn:GE.
+          assert (Ec' : exists c', nth_error cs' (N.to_nat r0) = Some c').
+          { destruct (nth_error cs' (N.to_nat r0)) eqn:X; [eauto|]. apply nth_error_None in X.
+            assert (N.to_nat r0 < length cs)%nat by (apply nth_error_Some; congruence). lia. }
+          destruct Ec' as [c' Ec'].
+          pose proof (Rcs _ _ _ Ec Ec') as Rc. rewrite N2Nat.id in Rc.
+          destruct (IH _ _ _ _ _ _ _ _ _ GE Rc) as [O X].
+          destruct (gres_ok g1 && r1) eqn:OK.
+          -- unfold set_child in E. destruct (set_nth (N.to_nat r0) c1 cs) as [cs2|] eqn:SN;
+               inversion E; subst; (split; [exact O|]); intros _; [|exact Rp].
+             destruct (set_nth_spec _ _ _ _ SN) as [L2 N2].
+             apply rep_full; [lia| |exact CO].
+             intros i d d' E1 E2. rewrite N2 in E1. destruct (Nat.eqb i (N.to_nat r0)) eqn:IK.
+             ++ apply Nat.eqb_eq in IK. subst i. inversion E1; subst d. rewrite Ec' in E2. inversion E2; subst d'.
+                rewrite N2Nat.id. apply X. right. first [exact OK|reflexivity].
+             ++ apply Rcs; assumption.
+          -- inversion E; subst. split; [exact O|]. intros _. exact Rp.
+  Qed.
+End SimGetNode.
+
+Section SessGetNode.
+  Variable H : list N -> list N.
+  Hypothesis H_len : forall x, length (H x) = 32%nat.
+
+  Theorem sess_getnode_sinv S ss F path g ss' :
+    sinv H S ss F -> sess_getnode H PathScheme S ss path = (g, ss') -> sinv H S ss' F.
+  Proof.
+    intros [GO Rp] E. unfold sess_getnode, sess_getnode_with in E.
+    destruct (getnode H (2 * length path + 4) PathScheme S (dirty_at ss) (s_root ss) [] path)
+      as [[[g1 n1] r1] ev1] eqn:GE.
+    inversion E; subst.
+    destruct (getnode_rep H H_len PathScheme S _ _ _ _ _ _ _ _ _ _ _ _ _ GE Rp) as [O X].
+    split; [exact GO|]. unfold delp_of. cbn [s_tr s_root].
+    rewrite (trace_evs_only_res_del ev1 O).
+    destruct (gres_ok g && r1) eqn:OK; [apply X; right; first [exact OK|reflexivity]|exact Rp].
+  Qed.
+End SessGetNode.
